@@ -123,18 +123,22 @@ def discrete_case(rep, drv, rng, th):
 		if best[1] != pyS:
 			bad.append('level vector %s costs %r < cost %r of the returned levels %s' % (best[1], best[0], ref, pyS))
 	# expected_cost of an arbitrary vector = model evaluation mode = top-down evaluation
-	cand = [pyS[j] + rng.randint(-3, 3) for j in range(N)]
-	try:
-		with warnings.catch_warnings():
-			warnings.simplefilter('ignore')
-			ec = ssm_serial.expected_cost({j + 1: cand[j] for j in range(N)}, **kw)
-		ev = drv.call('ssm', p=fr(p), mu=fr(mu), xlo=int(min(x_lo, x_lo)), n=int(max(n, max(cand) - x_lo)), stages=stages, fixed=cand)
-		if abs(ec - forward_cost(cand, h, Ls, p, ds)) > trunc:
-			bad.append('expected_cost(%s) = %r but operating those levels costs %r' % (cand, ec, forward_cost(cand, h, Ls, p, ds)))
-		if not close(ec, unfr(ev['cost'])):
-			same = False
-	except Exception as e:
-		bad.append('expected_cost raised %s' % err_enum(e))
+	cands = [[pyS[j] + rng.randint(-3, 3) for j in range(N)]]
+	for cand in cands:
+		try:
+			with warnings.catch_warnings():
+				warnings.simplefilter('ignore')
+				ec = ssm_serial.expected_cost({j + 1: cand[j] for j in range(N)}, **kw)
+			ev = drv.call('ssm', p=fr(p), mu=fr(mu), xlo=int(x_lo), n=int(max(n, max(cand) - x_lo)), stages=stages, fixed=cand)
+			fc = forward_cost(cand, h, Ls, p, ds)
+			if abs(ec - fc) > trunc * max(1.0, abs(fc) / 100):
+				bad.append('expected_cost(%s) = %r but operating those levels costs %r' % (cand, ec, fc))
+			if not close(ec, unfr(ev['cost'])):
+				same = False
+				bad_eval = 'expected_cost(%s): python %r, model evaluation %r' % (cand, ec, float(unfr(ev['cost'])))
+				rep.count('ssm:eval-mismatch')
+		except Exception as e:
+			bad.append('expected_cost raised %s' % err_enum(e))
 	# one stage = newsvendor
 	if N == 1 and kind == 'P':
 		from stockpyl.newsvendor import newsvendor_poisson
@@ -161,7 +165,7 @@ def normal_case(rep, rng):
 	from stockpyl import ssm_serial
 	from stockpyl.newsvendor import newsvendor_normal
 	N = rng.randint(1, 3)
-	h = [rng.choice([1, 2, 3]) for _ in range(N)]; Ls = [rng.choice([1, 2]) for _ in range(N)]; p = rng.choice([10, 37.12]); mean, sd = rng.choice([5, 20]), rng.choice([1, 2])
+	h = [rng.choice([1, 2, 3]) for _ in range(N)]; Ls = [rng.choice([1, 2, 3]) for _ in range(N)]; p = rng.choice([10, 37.12]); mean, sd = rng.choice([5, 20, 50]), rng.choice([1, 2])
 	case = {'N': N, 'h': h, 'L': Ls, 'p': p, 'mean': mean, 'sd': sd}
 	rep.case('ssm-normal', case, nontrivial=N >= 2)
 	kw = dict(num_nodes=N, echelon_holding_cost={j + 1: h[j] for j in range(N)}, lead_time={j + 1: Ls[j] for j in range(N)}, stockout_cost=p, demand_mean=mean, demand_standard_deviation=sd)
@@ -190,6 +194,34 @@ def normal_case(rep, rng):
 	except Exception as e:
 		import traceback
 		bad.append('raised %s: %s' % (err_enum(e), traceback.format_exc()[-200:]))
+	# expected_cost of candidate vectors near and far below the optimum (positive levels on a coarse global grid) vs an independent
+	# evaluation of the echelon recursion IN_N = S_N - D_N, IN_j = min(S_j, IN_{j+1}) - D_j by seeded sampling (labelled test, 3% band)
+	if N >= 2 and not bad:
+		try:
+			tot = mean * sum(Ls)
+			vecs = [{j: S[j] for j in S}]
+			vecs.append({j: S[j] - rng.choice([0.2, 0.35, 0.5]) * mean * sum(Ls[:j]) for j in S})      # understocked everywhere, still nondecreasing upstream
+			vecs.append({j: (S[j] - rng.choice([0.3, 0.5]) * tot if j == N else S[j]) for j in S})          # only the source stage starved
+			g = np.random.default_rng(12345)
+			M = 400000
+			for vec in vecs:
+				if any(v <= 0 for v in vec.values()):
+					continue
+				with warnings.catch_warnings():
+					warnings.simplefilter('ignore')
+					ec = float(ssm_serial.expected_cost(vec, **kw))
+				cur = None; cost = 0.0
+				for j in range(N, 0, -1):
+					d = g.normal(mean * Ls[j - 1], sd * math.sqrt(Ls[j - 1]), M)
+					start = np.full(M, float(vec[j])) if cur is None else np.minimum(vec[j], cur)
+					cur = start - d
+					cost += h[j - 1] * float(cur.mean())
+				cost += (p + sum(h)) * float(np.maximum(-cur, 0).mean())
+				rep.count('ssm-normal:vectors-evaluated')
+				if abs(ec - cost) > 0.03 * abs(cost) + 0.5:
+					bad.append('expected_cost(%s) = %r but operating those levels costs %.4f (independent evaluation)' % ({k: round(float(v), 2) for k, v in vec.items()}, ec, cost))
+		except Exception as e:
+			bad.append('evaluation raised %s' % err_enum(e))
 	if bad:
 		rep.diff('ssm-normal', '; '.join(bad[:3]), case, oracle=True, theorem=THEOREM)
 
